@@ -18,6 +18,7 @@ import (
 )
 
 type escAn struct {
+	busy    map[ssa.Value]bool
 	raw     map[ssa.Value]bool
 	rets    map[*ssa.Function][]bool
 	changed bool
@@ -28,7 +29,24 @@ func (e *escAn) isRaw(v ssa.Value) bool {
 	case *ssa.Const:
 		return false
 	case *ssa.Parameter:
-		return isStringish(v.Type()) || isStringSlice(v.Type())
+		if !(isStringish(v.Type()) || isStringSlice(v.Type())) {
+			return false
+		}
+		// a closed helper's parameter is as raw as what its callers pass
+		if args, _, ok := paramArgs(v); ok && !e.busy[v] {
+			if e.busy == nil {
+				e.busy = map[ssa.Value]bool{}
+			}
+			e.busy[v] = true
+			defer delete(e.busy, v)
+			for _, a := range args {
+				if e.isRaw(a) {
+					return true
+				}
+			}
+			return false
+		}
+		return true
 	case *ssa.FreeVar:
 		return true
 	}
